@@ -105,6 +105,11 @@ Proof.
 Qed.
 End LABELS.
 
+Lemma fwd_total_read c s : fwd_total (count_read c s) = fwd_total c. Proof. destruct s; reflexivity. Qed.
+Lemma fwd_total_put c s n : fwd_total (count_put c s n) = fwd_total c. Proof. destruct s; reflexivity. Qed.
+Ltac tot := cbn [cnt set_cnt set_work set_store set_rr count_fwd fwd_total MSPot.done]; rewrite ?fwd_total_read, ?fwd_total_put;
+            cbn [cnt set_cnt set_work set_store set_rr count_fwd fwd_total MSPot.done]; try congruence; try lia.
+
 (* ---------- what MSPot's executor does, action by action ---------- *)
 Section PEXEC.
 Variable N : Z.
@@ -332,7 +337,8 @@ Qed.
 (* (2) the stores: MSPot's single store, labelled by stack position, against the RAM and DISK stores of Exec *)
 Definition Rx (x : MSPot.xst) (X : xstate) : Prop :=
   fwd X = MSPot.fwd x /\ w_ics X = MSPot.wics x /\ w_deps X = MSPot.wdeps x /\ rr X = MSPot.rr x /\
-  seen_endfwd X = MSPot.endfwd x /\ ram X = proj RAM (MSPot.store x) /\ disk X = proj DISK (MSPot.store x).
+  seen_endfwd X = MSPot.endfwd x /\ ram X = proj RAM (MSPot.store x) /\ disk X = proj DISK (MSPot.store x) /\
+  fwd_total (cnt X) = MSPot.done x.
 
 Lemma mirror_labelled : forall sn stv a, MSPot.mirror lb sn stv a -> (length sn <= length (labels c))%nat -> labelled (labels c) stv.
 Proof.
@@ -371,7 +377,7 @@ Lemma exec_agrees x X a x' exh : Rx x X -> emitted a -> MSPot.exec N x a = Some 
   (a = EndReverse -> exh = true) ->
   check pms true exh X a = None /\ Rx x' (apply pms exh X a).
 Proof.
-  intros (Rf & Rwi & Rwd & Rrr & Rse & Rram & Rdisk) Hem Hex Hlab' Hrr0 Hexh.
+  intros (Rf & Rwi & Rwd & Rrr & Rse & Rram & Rdisk & Rtot) Hem Hex Hlab' Hrr0 Hexh.
   destruct a as [n0 n1 wi wa sg|n1 n0 cl|n src dst|n src dst| |]; cbn [emitted] in Hem.
   - destruct Hem as [Hn0 [(-> & -> & Hcp)|(-> & ->)]].
     + (* write a restart checkpoint *)
@@ -394,7 +400,7 @@ Proof.
         cbn [set_cnt set_store set_work fwd w_ics w_deps rr seen_endfwd ram disk MSPot.fwd MSPot.wics MSPot.wdeps MSPot.rr MSPot.endfwd MSPot.store sel].
         destruct Hsgcp as [-> | ->]; cbn [sel set_work ram disk];
           rewrite ?proj_cons_same, ?(proj_cons_other RAM DISK), ?(proj_cons_other DISK RAM) by discriminate;
-          repeat split; auto; rewrite ?Rram, ?Rdisk; reflexivity.
+          repeat split; auto; rewrite ?Rram, ?Rdisk; try reflexivity; tot.
     + (* advance in WORK *)
       destruct (pexec_fwd_work N x n0 n1 wa x' Hex) as (Hf & Hn & Hwa & ->).
       assert (Hmin : Z.min n1 N = n1) by lia.
@@ -406,14 +412,14 @@ Proof.
         destruct wa; [|reflexivity]. destruct (Hwa eq_refl) as [E1 E2]. rewrite <- E2, E1, !Z.eqb_refl. reflexivity.
       * unfold apply. cbn [xN pms]. rewrite Hmin. cbn [st_eqb andb put is_cp]. unfold Rx.
         cbn [set_cnt set_work fwd w_ics w_deps rr seen_endfwd ram disk MSPot.fwd MSPot.wics MSPot.wdeps MSPot.rr MSPot.endfwd MSPot.store].
-        repeat split; auto; try congruence.
+        repeat split; auto; try congruence; tot.
   - destruct Hem as [Hn0 ->]. destruct (pexec_rev N x n1 n0 true x' Hex) as (Hse & Hn1 & Hlt & Hcov & ->).
     split.
     + unfold check. cbn [xN pms]. rewrite Rse, Hse, Rrr, Rwd.
       assert (Hcov' : covers (MSPot.wdeps x) n0 n1 = true) by exact Hcov. rewrite Hcov'.
       repeat (rewrite first_err_ok; [|bool_true; try lia; auto]). reflexivity.
     + unfold apply, set_rr, Rx. cbn [fwd w_ics w_deps rr seen_endfwd ram disk MSPot.fwd MSPot.wics MSPot.wdeps MSPot.rr MSPot.endfwd MSPot.store].
-      repeat split; auto; try congruence.
+      repeat split; auto; try congruence; tot.
   - (* Copy *)
     destruct Hem as (Hn & Hcp & ->).
     destruct (pexec_load N x false n src x' Hex) as (Hse & Hwi & Hwd & b0 & Hlk & Hb & ->).
@@ -428,7 +434,7 @@ Proof.
     + unfold apply. rewrite Hsel, (proj_lookup_some _ _ _ _ Hlk). cbn [cp_ics cp_deps].
       assert (Hr : (n <=? n) && (n <? b0) = true) by (bool_true; lia). rewrite Hr. unfold Rx.
       cbn [set_cnt set_work fwd w_ics w_deps rr seen_endfwd ram disk MSPot.fwd MSPot.wics MSPot.wdeps MSPot.rr MSPot.endfwd MSPot.store].
-      repeat split; auto; try congruence.
+      repeat split; auto; try congruence; tot.
   - (* Move *)
     destruct Hem as (Hn & Hcp & ->).
     destruct (pexec_load N x true n src x' Hex) as (Hse & Hwi & Hwd & b0 & Hlk & Hb & ->).
@@ -445,15 +451,15 @@ Proof.
       destruct Hsgcp as [-> | ->];
         cbn [set_cnt set_store set_work fwd w_ics w_deps rr seen_endfwd ram disk MSPot.fwd MSPot.wics MSPot.wdeps MSPot.rr MSPot.endfwd MSPot.store];
         rewrite ?(proj_remove_same _ _ _ _ Hlk), ?(proj_remove_other _ DISK _ _ _ Hlk), ?(proj_remove_other _ RAM _ _ _ Hlk) by discriminate;
-        repeat split; auto; try congruence.
+        repeat split; auto; try congruence; tot.
   - destruct (pexec_endfwd N x x' Hex) as (Hse & Hf & ->).
     split.
     + unfold check. cbn [xN pms]. unfold fwd_is. rewrite Rse, Hse, Rf, Hf, Z.eqb_refl. reflexivity.
-    + unfold apply, Rx. cbn [fwd w_ics w_deps rr seen_endfwd ram disk MSPot.fwd MSPot.wics MSPot.wdeps MSPot.rr MSPot.endfwd MSPot.store]. repeat split; auto; try congruence.
+    + unfold apply, Rx. cbn [fwd w_ics w_deps rr seen_endfwd ram disk MSPot.fwd MSPot.wics MSPot.wdeps MSPot.rr MSPot.endfwd MSPot.store]. repeat split; auto; try congruence; tot.
   - destruct (pexec_endrev N x x' Hex) as (Hse & Hrr & Hst & ->). rewrite (Hexh eq_refl).
     split.
     + unfold check. cbn [xN pms]. rewrite Rse, Hse, Rrr, Hrr, Z.eqb_refl, Rram, Rdisk, Hst. reflexivity.
-    + unfold apply, Rx. cbn [fwd w_ics w_deps rr seen_endfwd ram disk]. repeat split; auto; try congruence.
+    + unfold apply, Rx. cbn [fwd w_ics w_deps rr seen_endfwd ram disk]. repeat split; auto; try congruence; tot.
 Qed.
 
 Lemma pexec_fwd_after x a x' n : emitted a -> MSPot.exec N x a = Some x' -> MSPot.fwd x = Some n -> MSPot.fwd x' = Some (n_after a n).
@@ -475,11 +481,11 @@ Definition msched (s : st) (stt : bool) : sched := {| ob := OMulti c s cr cd; st
 Inductive J : sched -> mon -> Prop :=
  | Jrun s stt m x : pcv s <> PDone -> pcv s <> PFinished -> mon_ok m -> PInv (toP s) x -> Rx x (mx m) ->
      MSPot.fwd x = Some (n_ s) -> exhausted s = false -> J (msched s stt) m
- | Jdone s stt m : (pcv s = PDone \/ pcv s = PFinished) -> mon_ok m -> J (msched s stt) m.
+ | Jdone s stt m : (pcv s = PDone \/ pcv s = PFinished) -> mon_ok m -> fwd_total (cnt (mx m)) = Inst.TC tj N S_ -> J (msched s stt) m.
 
 Lemma J_step sch m : J sch m -> mon_ok m -> good_step pms J sch m.
 Proof.
-  intros HJ _. unfold good_step. inversion HJ as [s stt m0 x Hd Hf Hm HI HR Hfw Hex|s stt m0 Hpc Hm]; subst; clear HJ.
+  intros HJ _. unfold good_step. inversion HJ as [s stt m0 x Hd Hf Hm HI HR Hfw Hex|s stt m0 Hpc Hm Htot]; subst; clear HJ.
   - destruct (next_agrees s x HI Hd Hf) as (s' & a & Hnext & Hres & Hf' & Hexh & Hexd & Hem & Hn').
     pose proof (Pstep_ok s x HI) as Hstep. rewrite Hres in Hstep. destruct Hstep as (x' & Hpex & HI').
     unfold Sched.next, msched. cbn [ob]. rewrite Hnext.
@@ -490,13 +496,15 @@ Proof.
     assert (Hexec : exec pms (negb (isnone (get_max_n sch'))) (is_exhausted sch') (mx m) a = inl (apply pms (is_exhausted sch') (mx m) a))
       by (apply exec_ok; exact Hchk).
     pose proof (pexec_fwd_after x a x' (n_ s) Hem Hpex Hfw) as Hfw'. rewrite <- Hn' in Hfw'.
-    destruct HR' as (Rf & Rwi & Rwd & Rrr & Rse & Rram & Rdisk).
+    destruct HR' as (Rf & Rwi & Rwd & Rrr & Rse & Rram & Rdisk & Rtot).
     destruct HI' as (HPhi' & Hrr' & HI'rest).
     destruct m as [X merr cnt0]. unfold mon_ok in Hm. cbn [merr_] in Hm. subst merr.
     rewrite (mon_step_ok pms sch' a {| mx := X; merr_ := None; mcount := cnt0 |} _ eq_refl Hexec).
     + split; [reflexivity|].
       destruct (exhausted s') eqn:Ee.
-      * apply Jdone; [left; apply Hexd; reflexivity|reflexivity].
+      * apply Jdone; [left; apply Hexd; reflexivity|reflexivity|].
+        cbn [mx] in Rtot |- *. rewrite Rtot. apply (MSPot.done_total (Inst.TC tj) N S_ lb (toP s') x'); [split; [exact HPhi'|split; [exact Hrr'|exact HI'rest]]|].
+        cbn [toP MSPot.pcv]. rewrite (proj1 Hexd eq_refl). reflexivity.
       * eapply (Jrun s' true _ x'); try assumption.
         -- intros Hp. apply Hexd in Hp. congruence.
         -- reflexivity.
@@ -507,12 +515,14 @@ Proof.
     + cbn [get_max_n sch' ob oz_ok xN pms]. apply Z.eqb_refl.
   - unfold Sched.next, msched. cbn [ob]. unfold Multistage.next.
     assert (Hr : Multistage.resume 3 c s = (s, StopIteration)) by (destruct s as [q n r sn e]; cbn [pcv] in Hpc; destruct Hpc as [-> | ->]; reflexivity).
-    rewrite Hr. apply (Jdone _ true); [right; reflexivity|exact Hm].
+    rewrite Hr. apply (Jdone _ true); [right; reflexivity|exact Hm|exact Htot].
 Qed.
 
-(* every run of next() on a Multistage object built on this configuration: no executor error, n / r / max_n agree, no exception *)
+(* every run of next() on a Multistage object built on this configuration: no executor error, n / r / max_n agree, no exception;
+   and once the schedule reports exhaustion, exactly TC N S forward steps have been executed *)
 Theorem multistage_cfg_run : forall k,
-  let '(_, m, ls) := run_ops pms (msched init false) mon0 (repeat Next k) in mon_ok m /\ no_raise ls.
+  let '(s', m, ls) := run_ops pms (msched init false) mon0 (repeat Next k) in
+  mon_ok m /\ no_raise ls /\ (is_exhausted s' = true -> fwd_total (cnt (mx m)) = Inst.TC tj N S_).
 Proof.
   intros k.
   assert (HJ0 : J (msched init false) mon0).
@@ -520,7 +530,11 @@ Proof.
     - pose proof (MSPot.inv_init (Inst.TC tj) N S_ HN) as H0. exact (H0 HS S_nonneg lb).
     - repeat split; reflexivity. }
   pose proof (run_nexts pms J J_step k _ _ HJ0 eq_refl) as H.
-  destruct (run_ops pms (msched init false) mon0 (repeat Next k)) as [[s' m'] ls]. destruct H as (_ & H1 & H2). split; assumption.
+  destruct (run_ops pms (msched init false) mon0 (repeat Next k)) as [[s' m'] ls]. destruct H as (HJ & H1 & H2).
+  split; [assumption|]. split; [assumption|].
+  intros He. inversion HJ as [s stt m0 x Hd Hf Hm HI HR Hfw Hex|s stt m0 Hpc Hm Htot]; subst.
+  - cbn [is_exhausted msched ob] in He. congruence.
+  - exact Htot.
 Qed.
 End BRIDGE.
 Print Assumptions multistage_cfg_run.
